@@ -904,6 +904,11 @@ func smtBodyI(t *Term) string {
 		// only value-preserving width changes reach integer mode (intsafe.go)
 		return smtNameI(t.Args[0])
 	}
+	if t.Op == OpULT {
+		// unsigned comparison of exact signed values
+		a, b := smtNameI(t.Args[0]), smtNameI(t.Args[1])
+		return fmt.Sprintf("(ite (>= %s 0) (or (< %s 0) (< %s %s)) (and (< %s 0) (< %s %s)))", a, b, a, b, b, a, b)
+	}
 	n, ok := opNamesI[t.Op]
 	if !ok {
 		panic("integer mode: unsupported op " + opNames[t.Op])
